@@ -832,6 +832,12 @@ def degenerate_part(ctx, fails, frames=None):
                         conds = ["g['%s']==%r" % (l0, v) for v in lv]
                         g.fit_stochastic(p=[pv] * len(conds), conditional=conds, samples=3, seed=12)
                         got[('conditional', pv)] = float(g.marginal_outcome)
+                    # a plan that conditions on the OBSERVED exposure: "everybody switches" (the treated stop with probability 1,
+                    # the untreated start with probability 1) is the deterministic rule A := 1 - A, in every replicate
+                    g.fit("g['A']==0")
+                    ref['switch'] = float(g.marginal_outcome)
+                    g.fit_stochastic(p=[0.0, 1.0], conditional=["g['A']==1", "g['A']==0"], samples=4, seed=13)
+                    got[('conditional-on-exposure', 'switch')] = float(g.marginal_outcome)
                 except Exception as e:   # noqa
                     fails.append((len(df), 'TimeFixedGFormula.fit_stochastic.degenerate.raises',
                                   'TimeFixedGFormula(standardize=%s, weights=%s): %s: %s' % (std, wcol, type(e).__name__, str(e)[:120]), payload))
@@ -842,7 +848,8 @@ def degenerate_part(ctx, fails, frames=None):
                     if not (abs(v - ref[pv]) <= 1e-9 * max(1.0, abs(ref[pv]))):
                         fails.append((len(df), 'TimeFixedGFormula.fit_stochastic.degenerate.%s' % std,
                                       "TimeFixedGFormula(standardize=%s, weights=%s, model %r): fit_stochastic with %s probability %g gives %r, "
-                                      "fit(%r) gives %r" % (std, wcol, rhs, how, pv, v, 'all' if pv == 1.0 else 'none', ref[pv]), payload))
+                                      "fit(%r) gives %r" % (std, wcol, rhs, how, pv if pv != 'switch' else 1.0, v,
+                                                            "g['A']==0" if pv == 'switch' else ('all' if pv == 1.0 else 'none'), ref[pv]), payload))
 
 
 def run(ctx):
